@@ -260,6 +260,30 @@ func c46(c *Ctx) {
 		c.Unreachable(site, "keeps-a-better-kind", Truth(better, true))
 		c.Unreachable(site, "keeps-same-kind-at-least-as-long", Cmp(isCurT, token.EQL, typ), Cmp(isCurL, token.GEQ, LenOf(func(v ssa.Value) bool { return v == dom })))
 		c.Unreachable(site, "ignores-non-matching-domain", Truth(matched, false))
+		// every domain of every virtual host is examined: taking a new best does not end the walk
+		var innerAdv, outerAdv ssa.Instruction
+		for _, b := range f.Blocks {
+			for _, in := range b.Instrs {
+				ia, ok := in.(*ssa.IndexAddr)
+				if !ok {
+					continue
+				}
+				bo, isB := ia.Index.(*ssa.BinOp)
+				if !isB {
+					continue
+				}
+				if ParamV("vHosts")(ia.X) {
+					outerAdv = bo
+				} else if FieldLoad(c.field(xdsrsrc, "VirtualHost", "Domains"))(ia.X) {
+					innerAdv = bo
+				}
+			}
+		}
+		if c.Expect(innerAdv != nil && outerAdv != nil, site, f, "two-walks", "the walks over virtual hosts and their domains were not found") {
+			c.MustPass("walk-continues-after-taking-a-new-best", pathQuery{Fn: f, StartBlocks: []*ssa.BasicBlock{upd}, Barrier: func(in ssa.Instruction) bool { return in == innerAdv }, Target: func(in ssa.Instruction) bool {
+				return in == outerAdv || isReturn(in)
+			}}, nil)
+		}
 		// conversely: a matching domain of a strictly better kind, or same kind and longer, is taken
 		c.MustFact(site, "taken-only-if-matched", Truth(matched, true))
 		for _, r := range returnsOf(f) {
